@@ -255,6 +255,7 @@ type FuncDecl struct {
 	Access  string
 	IsInit  bool
 	Comment string
+	Owner   string // declaring composite/interface (informational; used in condition ids)
 }
 
 type Field struct {
